@@ -43,6 +43,50 @@ stubset!(le_16k, KIB16 + 64);
 stubset!(le_32k, 2 * KIB16 + 128);
 stubset!(le_48k, 3 * KIB16 + 128);
 
+/// live-block counting set (C10: a failed decode leaves no heap block behind): every allocation +1, every deallocation -1
+pub mod live {
+	use super::*;
+	extern "C" { fn __rust_dealloc(ptr: *mut u8, size: usize, align: usize); }
+	pub static mut LIVE: isize = 0;
+	pub static mut EVER: usize = 0;
+	pub unsafe fn alloc(l: Layout) -> *mut u8 { LIVE += 1; EVER += 1; __rust_alloc(l.size(), l.align()) }
+	pub unsafe fn alloc_zeroed(l: Layout) -> *mut u8 { LIVE += 1; EVER += 1; __rust_alloc_zeroed(l.size(), l.align()) }
+	pub unsafe fn realloc(p: *mut u8, l: Layout, new_size: usize) -> *mut u8 { __rust_realloc(p, l.size(), l.align(), new_size) }
+	pub unsafe fn realloc_nonnull(p: NonNull<u8>, l: Layout, new_size: usize) -> *mut u8 { __rust_realloc(p.as_ptr(), l.size(), l.align(), new_size) }
+	pub unsafe fn dealloc(p: *mut u8, l: Layout) { LIVE -= 1; __rust_dealloc(p, l.size(), l.align()) }
+	pub unsafe fn deallocate(_g: &alloc::alloc::Global, p: NonNull<u8>, l: Layout) { if l.size() != 0 { LIVE -= 1; __rust_dealloc(p.as_ptr(), l.size(), l.align()) } }
+	#[cfg(not(feature = "pb_alloc"))]
+	pub fn live() -> isize { unsafe { LIVE } }
+	#[cfg(not(feature = "pb_alloc"))]
+	pub fn ever() -> usize { unsafe { EVER } }
+	// native replay: the counters live in the real global allocator (per thread, switched on by the harness)
+	#[cfg(feature = "pb_alloc")]
+	pub fn live() -> isize { crate::stubs::native::tl_live() }
+	#[cfg(feature = "pb_alloc")]
+	pub fn ever() -> usize { crate::stubs::native::tl_ever() }
+}
+/// attach the live-block counting set to a harness
+#[macro_export]
+macro_rules! with_live_count {
+	($(#[$m:meta])* pub fn $name:ident() $body:block) => {
+		#[kani::proof]
+		$(#[$m])*
+		#[kani::stub(alloc::alloc::alloc, crate::stubs::live::alloc)]
+		#[kani::stub(alloc::alloc::alloc_zeroed, crate::stubs::live::alloc_zeroed)]
+		#[kani::stub(alloc::alloc::realloc, crate::stubs::live::realloc)]
+		#[kani::stub(alloc::alloc::realloc_nonnull, crate::stubs::live::realloc_nonnull)]
+		#[kani::stub(alloc::alloc::dealloc, crate::stubs::live::dealloc)]
+		#[kani::stub(<alloc::alloc::Global as core::alloc::Allocator>::deallocate, crate::stubs::live::deallocate)]
+		pub fn $name() {
+			#[cfg(feature = "pb_alloc")]
+			crate::stubs::native::tl_start();
+			let _done: () = $body;
+			#[cfg(feature = "pb_alloc")]
+			crate::stubs::native::tl_stop();
+		}
+	};
+}
+
 /// attach one stub set to a harness
 #[macro_export]
 macro_rules! with_stubs {
@@ -76,21 +120,39 @@ pub mod native {
 	static ALLOWANCE: AtomicUsize = AtomicUsize::new(usize::MAX);
 	pub fn set_allowance(a: usize) { ALLOWANCE.store(a, Ordering::SeqCst) }
 	pub fn clear_allowance() { ALLOWANCE.store(usize::MAX, Ordering::SeqCst) }
+	// per-thread live-block counting for the `live` stub set (const-initialised, no destructor: safe to touch from the allocator)
+	std::thread_local! {
+		static TL_ON: core::cell::Cell<bool> = const { core::cell::Cell::new(false) };
+		static TL_LIVE: core::cell::Cell<isize> = const { core::cell::Cell::new(0) };
+		static TL_EVER: core::cell::Cell<usize> = const { core::cell::Cell::new(0) };
+	}
+	pub fn tl_start() { let _ = TL_LIVE.try_with(|c| c.set(0)); let _ = TL_EVER.try_with(|c| c.set(0)); let _ = TL_ON.try_with(|c| c.set(true)); }
+	pub fn tl_stop() { let _ = TL_ON.try_with(|c| c.set(false)); }
+	pub fn tl_live() -> isize { TL_LIVE.try_with(|c| c.get()).unwrap_or(0) }
+	pub fn tl_ever() -> usize { TL_EVER.try_with(|c| c.get()).unwrap_or(0) }
+	fn tl_count(d: isize) {
+		if TL_ON.try_with(|c| c.get()).unwrap_or(false) {
+			let _ = TL_LIVE.try_with(|c| c.set(c.get() + d));
+			if d > 0 { let _ = TL_EVER.try_with(|c| c.set(c.get() + 1)); }
+		}
+	}
 	pub struct Checking;
 	unsafe impl GlobalAlloc for Checking {
 		unsafe fn alloc(&self, l: Layout) -> *mut u8 {
 			if l.size() > ALLOWANCE.load(Ordering::SeqCst) { std::process::abort() }
+			tl_count(1);
 			std::alloc::System.alloc(l)
 		}
 		unsafe fn alloc_zeroed(&self, l: Layout) -> *mut u8 {
 			if l.size() > ALLOWANCE.load(Ordering::SeqCst) { std::process::abort() }
+			tl_count(1);
 			std::alloc::System.alloc_zeroed(l)
 		}
 		unsafe fn realloc(&self, p: *mut u8, l: Layout, n: usize) -> *mut u8 {
 			if n > ALLOWANCE.load(Ordering::SeqCst) { std::process::abort() }
 			std::alloc::System.realloc(p, l, n)
 		}
-		unsafe fn dealloc(&self, p: *mut u8, l: Layout) { std::alloc::System.dealloc(p, l) }
+		unsafe fn dealloc(&self, p: *mut u8, l: Layout) { tl_count(-1); std::alloc::System.dealloc(p, l) }
 	}
 	#[global_allocator]
 	static GLOBAL: Checking = Checking;
